@@ -5,5 +5,70 @@ package hrpc
 // Contracts for the deductive verifier in /verif (gowp). This file contains comments only; the
 // build tag `verif` adds no code. Syntax: /verif/DESIGN.md section 2.2.
 
+// ---- cell decoding (C11: no byte string can make the decoders panic; C10: round trip) ----
+
 //@ func hrpc.cellFromCellBlock
+//@   modifies nothing
 //@   panics never[C11]
+//@   ensures[C11] r2 != nil ==> r0 == nil && r1 == 0
+//@   ensures[C11] r2 == nil ==> r0 != nil && r1 <= len(b)
+
+//@ func hrpc.deserializeCellBlocks
+//@   modifies nothing
+//@   panics never[C11]
+//@   at make 1 assert[C11] cellsLen * 24 <= len(b)
+//@   ensures[C11] r1 <= len(b)
+//@   ensures[C11] r2 == nil ==> len(r0) == cellsLen
+//@   loop 1 invariant 0 <= i && i <= cellsLen && readLen <= len(b) && len(cells) == cellsLen
+//@   loop 1 decreases cellsLen - i
+
+//@ func hrpc.(*Scan).DeserializeCellBlocks
+//@   requires typeis(m, "*pb.ScanResponse")
+//@   modifies F.pb.ScanResponse.Results, M.*pb.Result
+//@   panics never[C11]
+//@   ensures[C11] r1 == nil ==> r0 <= len(b)
+//@   loop 1 invariant readLen <= len(b)
+
+//@ func hrpc.(*Get).DeserializeCellBlocks
+//@   requires typeis(m, "*pb.GetResponse")
+//@   modifies F.pb.Result.Cell
+//@   panics never[C11]
+//@   ensures[C11] r1 == nil ==> r0 <= len(b)
+
+//@ func hrpc.(*Mutate).DeserializeCellBlocks
+//@   requires typeis(pm, "*pb.MutateResponse")
+//@   modifies F.pb.Result.Cell
+//@   panics never[C11]
+//@   ensures[C11] r1 == nil ==> r0 <= len(b)
+
+// ---- the Call interface as seen by the region client (assumed of every implementation; the in-repo
+// ---- implementations are checked against the same clauses below)
+
+//@ func hrpc.Call.NewResponse() (r)
+//@   modifies nothing
+//@   ensures r != nil
+//@   ensures typeis(recv, "*hrpc.Get") ==> typeis(r, "*pb.GetResponse")
+//@   ensures typeis(recv, "*hrpc.Mutate") ==> typeis(r, "*pb.MutateResponse")
+//@   ensures typeis(recv, "*hrpc.Scan") ==> typeis(r, "*pb.ScanResponse")
+//@   ensures typeis(recv, "*region.multi") ==> typeis(r, "*pb.MultiResponse")
+
+//@ func hrpc.(*Get).NewResponse
+//@   modifies nothing
+//@   ensures[C11,C02] r0 != nil && typeis(r0, "*pb.GetResponse")
+
+//@ func hrpc.(*Mutate).NewResponse
+//@   modifies nothing
+//@   ensures[C11,C02] r0 != nil && typeis(r0, "*pb.MutateResponse")
+
+//@ func hrpc.Call.Name() (r)
+//@   pure
+//@ func hrpc.Call.Region() (r)
+//@   pure
+//@ func hrpc.Call.ResultChan() (r)
+//@   pure
+//@ func hrpc.Call.Context() (r)
+//@   pure
+//@ func hrpc.Call.Table() (r)
+//@   pure
+//@ func hrpc.Call.Key() (r)
+//@   pure
